@@ -18,8 +18,9 @@
      nothing for that id afterwards until the client starts it again; nothing for ids never
      started -- in particular (graphql-transport-ws) nothing before the acknowledged init.
    Deliberate leniency (the documents do not prescribe a reaction): a JSON value of the wrong
-   shape and a subscribe/start the executor pool refuses may be ignored or (transport-ws)
-   answered with 4400; legacy: no init requirement, an id-less "error" is accepted as the report
+   shape may be ignored or (transport-ws) answered with 4400, a subscribe/start without a usable
+   payload (none, or one the executor pool refuses) may be ignored or (transport-ws) answered with
+   4400 or, if its id is running, 4409; legacy: no init requirement, an id-less "error" is accepted as the report
    of an unparsable message, "error" for the id of a running operation in answer to a second
    start with that id is read as the rejection of the second start (the first keeps running),
    connection_terminate needs no reaction. *)
@@ -75,8 +76,8 @@ Definition ctx_of (pr : proto) (m : mon) (inp : input) : ctx :=
     | CPing => mkCtx false true [] false false None
     | CSubscribe i p =>
       if negb (m_acked m) then ctx_close [4401] true
-      else if mem i (m_active m) then ctx_close [4409] true
-      else if payload_ok p then ctx_none else ctx_close [4400] false
+      else if payload_ok p then (if mem i (m_active m) then ctx_close [4409] true else ctx_none)
+      else ctx_close [4400; 4409] false
     | CBadJson | CUnknown | CStart _ _ | CStop _ | CTerminate => ctx_close [4400] true
     | CWrongShape => ctx_close [4400] false
     | EInitTimeout => if m_acked m then ctx_none else ctx_close [4408] true
